@@ -94,6 +94,11 @@ def run_check(mod, tier, seed, skip_proofs=False):
                     broken.append(f"Props/{mod.PROPS_FILE}: assumptions not allowed: {bad_ax}")
                 else:
                     discharged = len(obligations)
+                    if tier == "thorough":
+                        ok_c, coqchk_summary = C.run_coqchk(mod.PROPS_FILE)
+                        notes.append("coqchk -o: " + coqchk_summary)
+                        if not ok_c:
+                            broken.append(f"coqchk does not accept Props/{mod.PROPS_FILE}o: {coqchk_summary}")
             else:
                 import re
                 m = re.findall(r'File "\./([^"]+)", line (\d+)', log_p)
